@@ -18,10 +18,10 @@ NoDefKW == "env=None,defaults=False"
 DumpDK == "skip_none=True,skip_validation=False"
 
 O(id, m, p, kw, tag, items, sub, sitems, pre, sel, dumpf, late, ser) ==
-  [id |-> id, m |-> m, p |-> p, eoe |-> (p = "B"), kw |-> kw, tag |-> tag, items |-> items, sub |-> sub, sitems |-> sitems,
+  [id |-> id, m |-> m, p |-> p, eoe |-> (p = "B"), kw |-> kw, tag |-> tag, stag |-> tag, items |-> items, sub |-> sub, sitems |-> sitems,
    pre |-> pre, sel |-> sel, dumpf |-> dumpf, late |-> late, ser |-> ser, dkv |-> DumpDK]
-PA(id, p, kw, items, sub, sitems) ==      \* parse_args; tag: coarse code of the argv
-  O(id, "parse_args", p, kw, IF sub = "none" THEN "r" ELSE "s", items, sub, sitems, "ok", sub, "none", "ok", FALSE)
+PA(id, p, kw, items, sub, sitems) ==      \* parse_args; tag: coarse code of the argv (one code: finer codes only multiply Alg-level states; the traces use the real argv text)
+  O(id, "parse_args", p, kw, "r", items, sub, sitems, "ok", sub, "none", "ok", FALSE)
 PO(id, m, p, pre, sel, dumpf, late) == O(id, m, p, "-", "-", << >>, "none", << >>, pre, sel, dumpf, late, FALSE)
 NP(id, m, p, pre, ser) == O(id, m, p, "-", "-", << >>, "none", << >>, pre, "none", "none", "ok", ser)
 
@@ -32,67 +32,52 @@ QuickOps == {
   PA("A:help",            "A", DefKW, <<"help">>, "none", << >>),
   PA("A:pc",              "A", DefKW, <<"pc">>, "none", << >>),
   PA("A:pc,bad",          "A", DefKW, <<"pc", "bad">>, "none", << >>),
-  PA("A:pc,help",         "A", DefKW, <<"pc", "help">>, "none", << >>),
-  PA("A:bad,pc",          "A", DefKW, <<"bad", "pc">>, "none", << >>),
   PA("A:cfg",             "A", DefKW, <<"cfg">>, "none", << >>),
-  PA("A:ncls",            "A", DefKW, <<"ncls">>, "none", << >>),
   PA("A:a/ok",            "A", DefKW, << >>, "a", <<"ok">>),
-  PA("A:a/bad",           "A", DefKW, << >>, "a", <<"bad">>),
-  PA("A:a/pc",            "A", DefKW, << >>, "a", <<"pc">>),
   PA("A:a/pc,bad",        "A", DefKW, << >>, "a", <<"pc", "bad">>),
-  PA("A:b/ok",            "A", DefKW, << >>, "b", <<"ok">>),
-  PA("A:ok|nodef",        "A", NoDefKW, <<"ok">>, "none", << >>),
   PO("A:obj",             "parse_object", "A", "ok", "none", "none", "ok"),
-  PO("A:obj-bad",         "parse_object", "A", "fail", "none", "none", "ok"),
   PO("A:obj-unknown",     "parse_object", "A", "ok", "none", "error", "fail"),
   PO("A:obj-a",           "parse_object", "A", "ok", "a", "none", "ok"),
-  PO("A:str",             "parse_string", "A", "ok", "none", "none", "ok"),
-  PO("A:env",             "parse_env", "A", "ok", "none", "none", "ok"),
-  NP("A:defaults",        "get_defaults", "A", "ok", FALSE),
   NP("A:dump",            "dump", "A", "ok", TRUE),
   NP("A:validate-bad",    "validate", "A", "fail", FALSE),
-  NP("A:instantiate",     "instantiate_classes", "A", "ok", FALSE),
   PA("B:ok",              "B", DefKW, <<"ok">>, "none", << >>),
   PA("B:pc,bad",          "B", DefKW, <<"pc", "bad">>, "none", << >>)
 }
 MoreOps == {
+  PA("A:pc,help",         "A", DefKW, <<"pc", "help">>, "none", << >>),
+  PA("A:b/ok",            "A", DefKW, << >>, "b", <<"ok">>),
+  PO("A:str",             "parse_string", "A", "ok", "none", "none", "ok"),
+  PO("A:env",             "parse_env", "A", "ok", "none", "none", "ok"),
+  NP("A:defaults",        "get_defaults", "A", "ok", FALSE),
+  NP("A:instantiate",     "instantiate_classes", "A", "ok", FALSE),
+  PA("A:bad,pc",          "A", DefKW, <<"bad", "pc">>, "none", << >>),
+  PA("A:ncls",            "A", DefKW, <<"ncls">>, "none", << >>),
+  PA("A:a/bad",           "A", DefKW, << >>, "a", <<"bad">>),
+  PA("A:a/pc",            "A", DefKW, << >>, "a", <<"pc">>),
+  PA("A:ok|nodef",        "A", NoDefKW, <<"ok">>, "none", << >>),
+  PO("A:obj-bad",         "parse_object", "A", "fail", "none", "none", "ok"),
   PA("A:unk",             "A", DefKW, <<"unk">>, "none", << >>),
   PA("A:pc,unk",          "A", DefKW, <<"pc", "unk">>, "none", << >>),
-  PA("A:unk,pc",          "A", DefKW, <<"unk", "pc">>, "none", << >>),
   PA("A:pcflag",          "A", DefKW, <<"pcflag">>, "none", << >>),
-  PA("A:pc,ok",           "A", DefKW, <<"pc", "ok">>, "none", << >>),
   PA("A:pc,cfg",          "A", DefKW, <<"pc", "cfg">>, "none", << >>),
-  PA("A:cfg,pc",          "A", DefKW, <<"cfg", "pc">>, "none", << >>),
   PA("A:cfgbad",          "A", DefKW, <<"cfgbad">>, "none", << >>),
-  PA("A:pc,cfgbad",       "A", DefKW, <<"pc", "cfgbad">>, "none", << >>),
   PA("A:clshelp",         "A", DefKW, <<"clshelp">>, "none", << >>),
-  PA("A:pc,clshelp",      "A", DefKW, <<"pc", "clshelp">>, "none", << >>),
   PA("A:pc/a/ok",         "A", DefKW, <<"pc">>, "a", <<"ok">>),
   PA("A:ok/a/unk",        "A", DefKW, <<"ok">>, "a", <<"unk">>),
-  PA("A:a/help",          "A", DefKW, << >>, "a", <<"help">>),
   PA("A:a/pc,help",       "A", DefKW, << >>, "a", <<"pc", "help">>),
-  PA("A:a/cfg",           "A", DefKW, << >>, "a", <<"cfg">>),
-  PA("A:ncls/a/ok",       "A", DefKW, <<"ncls">>, "a", <<"ok">>),
   PA("A:b/bad",           "A", DefKW, << >>, "b", <<"bad">>),
-  PA("A:b/ncls",          "A", DefKW, << >>, "b", <<"ncls">>),
-  PA("A:a/ok|nodef",      "A", NoDefKW, << >>, "a", <<"ok">>),
+  [PA("A:a/ok|nodef", "A", NoDefKW, << >>, "a", <<"ok">>) EXCEPT !.late = "fail"],     \* no --x: the link finds no source
   [PA("A:ok|late", "A", DefKW, <<"ok">>, "none", << >>) EXCEPT !.late = "fail"],
   [PA("A:envbad", "A", "env=True,defaults=True", << >>, "none", << >>) EXCEPT !.pre = "fail"],
   PO("A:obj-b",           "parse_object", "A", "ok", "b", "none", "ok"),
-  PO("A:obj-raise",       "parse_object", "A", "ok", "none", "raise", "ok"),
   PO("A:str-bad",         "parse_string", "A", "fail", "none", "none", "ok"),
-  PO("A:str-b",           "parse_string", "A", "ok", "b", "none", "ok"),
   PO("A:env-bad",         "parse_env", "A", "fail", "none", "none", "ok"),
   NP("A:dump-bad",        "dump", "A", "fail", FALSE),
   NP("A:validate",        "validate", "A", "ok", FALSE),
   NP("A:instantiate-bad", "instantiate_classes", "A", "fail", FALSE),
   PA("B:bad",             "B", DefKW, <<"bad">>, "none", << >>),
   PA("B:pc",              "B", DefKW, <<"pc">>, "none", << >>),
-  PA("B:help",            "B", DefKW, <<"help">>, "none", << >>),
-  PA("B:ok|nodef",        "B", NoDefKW, <<"ok">>, "none", << >>),
-  PO("B:obj",             "parse_object", "B", "ok", "none", "none", "ok"),
-  PO("B:obj-unknown",     "parse_object", "B", "ok", "none", "error", "fail"),
-  NP("B:dump",            "dump", "B", "ok", TRUE)
+  PO("B:obj-unknown",     "parse_object", "B", "ok", "none", "error", "fail")
 }
 Ops == IF Full THEN QuickOps \cup MoreOps ELSE QuickOps
 
@@ -113,10 +98,12 @@ FramesExplainCtx == \A v \in ManagedVars : st.ctx[v] # Ctx0[v] => \E k \in 1..Le
 \* no call ever reads a set-without-reset variable (or parser.args) that it did not write itself earlier in the same call
 NoStaleRead == ~st.stale
 \* the Alg program of every call, run on a fresh process, gives the Ref answer (the two layers agree where no history exists)
-AlgIsRefOnFresh == \A o \in Ops : AlgOutcome(o, Res0(Roots, Names)) = RefOutcome(o)
+AlgIsRefOnFresh == Quiescent => \A o \in Ops : AlgOutcome(o, Res0(Roots, Names)) = RefOutcome(o)
 \* C09, design level.  On the pinned tree it holds outside the named deviation; with the repair it holds everywhere.
 HistoryIndependent ==
   Quiescent => \A o \in Ops : (ClearOnError \/ ~PendingResidue(o, st.res)) => AlgOutcome(o, st.res) = RefOutcome(o)
+\* the property itself, without the exception: violated on the pinned tree (MC_Context_strict.cfg; TLC's counterexample is the finding)
+HistoryIndependentStrict == Quiescent => \A o \in Ops : AlgOutcome(o, st.res) = RefOutcome(o)
 \* ... and the deviation is exactly as wide as recorded: a pending request changes the answer of precisely the calls that
 \* reach a print point (every parse method that gets past its early failures), never of the others
 DeviationShape ==
